@@ -13,13 +13,13 @@ add("C01","exploration","runtime monitor: use-count + stickiness oracle over seq
     "Real mint under (a) seeded sequential histories that re-present used/locked secrets in every way the statement lists, judged against a reference model, and (b) a deterministic scheduler that parks every request before and after each storage/Lightning call (lock waits are detected) and enumerates the interleavings of swap||swap, swap||melt (each LN outcome), melt||melt, checkstate||melt, swap||poll/state-check settling a pending melt on one proof (quick: all schedules with <= 3 preemptions; thorough: <= 5 preemptions, at most 10000 per scenario); oracle counts successful swaps plus Lightning payments made per secret (<=1) and probes SPENT stickiness incl. after restart. The sequential histories also ask POST /v1/checkstate with identical bytes before and after proofs are spent. Thorough adds sampled triples, free-running stress (typed API and, every other history, the HTTP router with its response cache) checked for linearizability with porcupine and a race-detector pass.",
     T+" Interleavings are complete for the enumerated pairs only (DESIGN 1.1 argument); triples and stress are samples.", "3/C01")
 add("C02","exploration","runtime monitor: conservation ledger (signed - redeemed - locked + LN out <= LN in, msat) and local balance/fee-limit assertions after every operation of generated histories",
-    "Real mint against an LN model that charges the full fee limit it is authorised; seeded honest+adversarial histories over the six fee rates with rotations, internal settlement, MPP, failing/pending payments and sub-sat invoice amounts; the ledger inequality and the local forms (swap, mint, melt, fee limit <= fee reserve, invoice >= quoted amount) are checked after every operation. Part of the runs put gonuts' own CLN and LND adapters between the mint and the model (fake CLN REST node, fake lnd gRPC server).",
+    "Real mint against an LN model that charges the full fee limit it is authorised; seeded honest+adversarial histories over the six fee rates with rotations, internal settlement (the own invoice also in its upper-case spelling), MPP (also through the adapters; the fake lnd sometimes finds no route within a fee limit), failing/pending payments and sub-sat invoice amounts; the ledger inequality and the local forms (swap, mint, melt, fee limit <= fee reserve, invoice >= quoted amount) are checked after every operation. Part of the runs put gonuts' own CLN and LND adapters between the mint and the model (fake CLN REST node, fake lnd gRPC server).",
     T+" Watcher notifications are not delivered in these histories (C03 covers them).", "3/C02")
 add("C03","exploration","runtime monitor: issuance-count oracle per quote over sequential histories, NUT-20 tamper matrix, and controlled-scheduler enumeration of mint||mint, mint||notification, mint||poll interleavings",
     "Real mint; per quote #successful issuances <= #payments at every point, never before payment, sum <= amount, NUT-20 signature recomputed by the harness; the DB/LN-call interleavings of two mint requests with different outputs, of a mint request with the late watcher notification and with a state poll are enumerated by the scheduler (quick: <= 2 preemptions; thorough: <= 5 preemptions, at most 10000 per scenario, plus internal settlement); thorough adds sampled three-way schedules, porcupine stress and -race. Part of the runs put gonuts' own CLN and LND adapters between the mint and the model (fake CLN REST node, fake lnd gRPC server). Invoices that lapse unpaid must stay UNPAID; an invoice paid in time and polled only after it lapsed must be PAID and mintable once; on mints that offer multi-path melts a melt quote that would settle an own quote for less is a violation.",
     T+" Complete for the enumerated pairs only.", "3/C03")
 add("C04","exploration","runtime monitor: accept/reject oracle over generated single-field mutants of really minted proofs (refcrypto decides genuineness)",
-    "Real mint (LoadMint + SQLite) with three keysets; valid proofs on every keyset and denomination class are minted, every value mutation of amount/id/C/secret is presented alone, after and before a valid proof through Swap, MeltTokens and MeltTokens on a quote for the mint's own invoice (settled without a payment); mutants must be refused, originals still accepted afterwards; honestly signed secrets over 512 bytes in several encodings must be refused, 512-byte ones accepted. Held on the cases listed in the evidence, not for all inputs.",
+    "Real mint (LoadMint + SQLite) with three keysets; valid proofs on every keyset and denomination class are minted (plain, JSON, and NUT-11 / NUT-14 locked secrets with their valid witness), every value mutation of amount/id/C/secret is presented alone, after and before a valid proof through Swap, MeltTokens and MeltTokens on a quote for the mint's own invoice (settled without a payment); mutants must be refused, originals still accepted afterwards; honestly signed secrets over 512 bytes in several encodings must be refused, 512-byte ones accepted. Held on the cases listed in the evidence, not for all inputs.",
     T+" Re-encodings of the same point are not generated.", "3/C04")
 add("C05","fault_enumeration","runtime monitor: decision-table oracle over exhaustively enumerated scripts of Lightning answers (pay x status lookups, length <= 4) and poll channels",
     "Real MeltTokens/GetMeltQuoteState/ProofsStateCheck under a fully scripted backend: every pay answer x every status-lookup sequence up to length 3 x poll channel assignment; observed quote state, proof state, in-flight observation inside the pay call and a follow-up swap are compared with the reference table (locked / spent / released), applied to the backend answers the code actually consumed; probes made while the pay call executes (second melt, state checks, poll, swap) against a backend that may not know the payment yet; a second melt of the unresolved quote with other inputs; byte-identical melt requests re-sent over HTTP, whose 200 answers must agree with the persisted state. Part of the runs put gonuts' own CLN and LND adapters between the mint and the model (fake CLN REST node, fake lnd gRPC server).",
@@ -58,7 +58,7 @@ add("C16","exploration","runtime monitor: big-integer reference balances and lim
     "Real mint under limit configurations at the boundaries; histories move the balance across the limit in both directions; refusal is demanded above the limits in unbounded arithmetic (also for the mint's own invoices), nuts.4.disabled must equal (balance >= max); every sixth configuration holds totals beyond 2^53; the totals are also asked from the admin RPC server (mint/manager) over its unix socket. Beyond the stated quantifier the scheduler enumerates the preemption-bounded interleavings of a mint request and a swap request carrying one B_, judged by issued total = signatures handed out and by restore.",
     T, "3/C16")
 add("C17","exploration","runtime monitor: wallet-world conservation and balance oracle from the transport record and mint-side proof states after every wallet operation",
-    "2-3 real wallets and 1-2 real mints; after every operation reported/pending balances, duplicate secrets, no-loss and conservation equations are evaluated from the byte-level transport record and mint-side states; a swap that leaves more at the mint than the fee the mint charges for its inputs is a loss. A directed sequence per history makes every kind of operation once; the listed finding is reproduced at every seed.",
+    "2-3 real wallets and 1-2 real mints; after every operation reported/pending balances, duplicate secrets, no-loss and conservation equations are evaluated from the byte-level transport record and mint-side states; a swap that leaves more at the mint than the fee the mint charges for its inputs is a loss. A directed sequence per history makes every kind of operation once, another one breaks the connection before a swap and before a melt request reach the mint (nothing may be lost, the retry goes through); the listed finding is reproduced at every seed.",
     T, "3/C17")
 add("C18","exploration","runtime monitor: exact-amount and fee oracle on Wallet.Send over generated wallet contents, amounts, fee modes and fee rates",
     "Harness-minted proofs of arbitrary denominations are placed in a real wallet store; every amount is sent in both fee modes; sum, fee for exactly those proofs, distinctness, mint-side state and the success premise are checked; also as the first operation after a rotation the wallet has not seen, and for sends issued at the same moment (thorough: that stage three more times under the race detector); a refusal right after an unseen rotation is judged like any other; one fixed store reproduces the listed finding at every seed.",
@@ -67,7 +67,7 @@ add("C19","exploration","runtime monitor: counter-reuse detection on every submi
     "Wallet histories (each starting with two mints of one wallet at the same moment), restore->continue->restore chains, and a crash at every store/HTTP boundary of mint/send/receive/melt followed by restore from the mnemonic.",
     T, "3/C19")
 add("C20","exploration","runtime monitor: NUT-shape validators, cause->code table, fault-to-generic-error and NUT-19 cache replay/near-replay assertions on the in-process HTTP handler",
-    "Hand-built JSON through the real router; every endpoint outcome, every table row, fault at each boundary of each endpoint, byte-identical replays must be served without state-changing DB calls (also after 24 further swaps and mints have been answered) and near-replays must be executed.",
+    "Hand-built JSON through the real router; every endpoint outcome, every table row, fault at each boundary of each endpoint, byte-identical replays must be served without state-changing DB calls (also after 24 further swaps and mints have been answered) and near-replays must be executed; after every fault the identical request and the quote it names are asked again and must be in spec shape; a NUT-20 key is sent in three spellings.",
     T, "3/C20")
 
 built = [l.strip() for l in open(os.path.join(V,"tools","built.txt")) if l.strip()]
